@@ -152,9 +152,15 @@ def run(chk):
             pass
         return
     try:
-        _run(chk, K, h, model, quick)
+        hasan = None
+        try:
+            hasan = os.path.join(build.scratch_root(), "verif-hlimits-asan-c15-%d" % os.getpid())
+            shutil.copy2(build.harness("h_limits", "asan"), hasan)
+        except FileNotFoundError:
+            shutil.copy2(build.harness("h_limits", "asan"), hasan)
+        _run(chk, K, h, model, quick, hasan)
     finally:
-        for f in (model, h):
+        for f in (model, h, os.path.join(build.scratch_root(), "verif-hlimits-asan-c15-%d" % os.getpid())):
             try:
                 os.remove(f)
             except OSError:
@@ -165,7 +171,7 @@ def _t(chk, what, t0):
     chk.cov.setdefault("phase_s", {})[what] = round(time.time() - t0, 1)
 
 
-def _run(chk, K, h, model, quick):
+def _run(chk, K, h, model, quick, hasan=None):
     rng = chk.rng
     L = K["YR_MAX_STRING_MATCHES"]
     SLOW = K["YR_SLOW_STRING_MATCHES"]
@@ -775,6 +781,112 @@ def _run(chk, K, h, model, quick):
         r.add(cid, cmds, post)
         truns.append(r)
 
+    # ================================================================ evaluation stack: every setting around the exact need of a rule,
+    # the deepest point reached inside each kind of iterator, in the ASan build (a store one slot past the stack buffer is a
+    # heap-buffer-overflow report).  Per (rule, stack size): the scan succeeds with the verdicts of the default stack size, or
+    # returns ERROR_EXEC_STACK_OVERFLOW; never a sanitizer report / crash; overflow is monotone in the size (exact threshold).
+    SO = K["ERROR_EXEC_STACK_OVERFLOW"]
+    many = " ".join('$m%d = "zz%03d"' % (i, i) for i in range(70))
+    KINDS = [  # (name, imports/strings prefix, loop header with %s = body, innermost body)
+        ("dict_struct", "", "for any k, v in tests.struct_dict : ( %s )", 'v.i == 1 and k == "foo"'),
+        ("dict_string", "", "for any k, v in tests.string_dict : ( %s )", 'v == "foo"'),
+        ("dict_int", "", "for all k, v in tests.integer_dict : ( %s )", "v >= 0"),
+        ("dict_empty", "", "for any k, v in tests.empty_struct_dict : ( %s )", "v.unused == 1"),
+        ("array_int", "", "for any x in tests.integer_array : ( %s )", "x == 2"),
+        ("array_struct", "", "for any x in tests.struct_array : ( %s )", "x.i == 1"),
+        ("range", "", "for any i in (0..3) : ( %s )", "i == 2"),
+        ("int_list", "", "for any i in (1, 2, 3) : ( %s )", "i == 2"),
+        ("str_list", "", 'for any s in ("a", "b") : ( %s )', 's == "b"'),
+        ("str_set", 'strings: $a = "ab" $b = "cd" ', "for any of them : ( %s )", "# > 0"),
+        ("str_set2", 'strings: $a = "ab" $b = "cd" ', "for all of ($a, $b) : ( %s )", "$ at 0 or @ > 0"),
+    ]
+    PLAIN = [
+        ("call2", "", "tests.isum(1, 2) == 3"), ("call3", "", "tests.isum(1, 2, 3) == 6"), ("call1", "", 'tests.length("abc") == 3'),
+        ("of_many", "strings: %s " % many, "1 of them"), ("of_many_n", "strings: %s " % many, "69 of ($m*)"),
+    ]
+    OUTER = ["for any o1 in (0..1) : ( %s )", "for any o2, w2 in tests.struct_dict : ( %s )", "for any o3 in tests.integer_array : ( %s )"]
+
+    def under(n, e):
+        return "(filesize >= 0 and " * n + e + ")" * n
+
+    iter_rules = []    # (id, source, N)
+    kinds_q = KINDS if not quick else KINDS
+    for name, pre, head, body in kinds_q:
+        for N in ([0, 1, 5, 200] if name in ("dict_struct", "array_int", "range", "str_set") or not quick else [0, 5]):
+            iter_rules.append(("%s_d1_n%d" % (name, N), 'import "tests" rule a { %scondition: %s }' % (pre, under(N, head % body)), N))
+        for depth in ([2, 3, 4] if name in ("dict_struct", "dict_string", "array_int", "str_set") or not quick else [2]):
+            e = head % body
+            for o in range(depth - 1):
+                e = OUTER[(o + len(name)) % 3] % e
+            if "strings:" in pre and depth == 4:
+                continue       # four loops + string identifiers: keep within YR_MAX_LOOP_NESTING with plain outer loops only
+            iter_rules.append(("%s_d%d_n0" % (name, depth), 'import "tests" rule a { %scondition: %s }' % (pre, e), 0))
+            if name.startswith("dict") and depth in (2, 4):
+                iter_rules.append(("%s_d%d_n5" % (name, depth), 'import "tests" rule a { %scondition: %s }' % (pre, under(5, e)), 5))
+    for name, pre, cond in PLAIN:
+        for N in ([0, 5] if quick else [0, 1, 5, 200]):
+            iter_rules.append(("%s_n%d" % (name, N), 'import "tests" rule a { %scondition: %s }' % (pre, under(N, cond)), N))
+        arith = "1 + (" * 5 + "tests.isum(1, 2)" + ")" * 5 + " == 8"
+    iter_rules.append(("call_arith5", 'import "tests" rule a { condition: %s }' % arith, 5))
+    if not quick:
+        pe = os.path.join(build.REPO, "tests", "data", "tiny")
+        if os.path.exists(pe):
+            iter_rules.append(("pe_version_info", 'import "pe" rule a { condition: for any k, v in pe.version_info : ( k == "x" ) or filesize > 0 }', 0))
+    vm_thresholds = {}
+    asan_run = Runner(hasan or h, alarm=300)
+    for rid, src, N in iter_rules:
+        sizes = sorted(set(list(range(1, 41)) + list(range(max(1, N - 2), N + 46)) + ([70 + i for i in range(0, 12)] if "of_many" in rid else [])
+                           + ([N + 70 + i for i in range(0, 8)] if "of_many" in rid else [])))
+        cid = "vmiter_" + rid
+        data = "buf " + R("ab cd zz001 zz069")
+        if rid == "pe_version_info":
+            data = "buf " + hx(open(os.path.join(build.REPO, "tests", "data", "tiny"), "rb").read())
+        cmds = ["newcompiler", "add " + R(src), "getrules", data, "scan 0 0 0"]
+        for S in sizes:
+            cmds += ["cfg stack %d" % S, "scan 0 0 0"]
+        cmds += ["destroy"] + RESET + ["smoke"]
+
+        def post(lines, ans, cid=cid, cmds=cmds, sizes=sizes, src=src, N=N, rid=rid):
+            count("vmiter", (rid.split("_d")[0].split("_n")[0], N, rid))
+            sc = scans(lines)
+            comp = compile_result(lines)
+            if comp[0]:
+                viol("vmiter", "%s: scenario error, the rule does not compile: %s" % (cid, comp[2][:1]), cid, cmds, lines, found=False)
+                return
+            c = crashed(lines)
+            done = len(sc) - 1          # scans completed after the reference scan
+            if c or len(sc) != len(sizes) + 1:
+                S = sizes[done] if 0 <= done < len(sizes) else None
+                rep_ = [l for l in (asan_run.err or "").split("\n") if "AddressSanitizer" in l or "WRITE of size" in l or "READ of size" in l
+                        or re.match(r"\s+#[0-3] ", l)][:8]
+                short = ["cfg stack %d" % S if S else "", "newcompiler", "add " + R(src), "getrules", cmds[3], "scan 0 0 0"]
+                viol("vmiter:memory", "%s: with YR_CONFIG_STACK_SIZE = %s the scan of `%s` does not return an error but dies (%s)%s: the evaluation-stack limit is "
+                     "not reported as ERROR_EXEC_STACK_OVERFLOW" % (cid, S, src[:160], c or "no output", "; sanitizer: " + " | ".join(x.strip() for x in rep_[:3]) if rep_ else ""),
+                     cid, short, lines[-6:], stack_size=S, sanitizer_report=rep_, rule=src)
+                return
+            ref = sc[0]
+            if ref.get("rc") != 0:
+                viol("vmiter", "%s: scenario error, the scan with the default stack size fails: %s" % (cid, ref["raw"][:100]), cid, cmds, lines, found=False)
+                return
+            rcs = [x.get("rc") for x in sc[1:]]
+            bad = [(S, x.get("rc"), x["raw"][:60]) for S, x in zip(sizes, sc[1:])
+                   if x.get("rc") not in (0, SO) or (x.get("rc") == 0 and x["rules"] != ref["rules"])]
+            okS = [S for S, r_ in zip(sizes, rcs) if r_ == 0]
+            thr = min(okS) if okS else None
+            nonmono = [S for S, r_ in zip(sizes, rcs) if r_ == SO and thr is not None and S > thr]
+            vm_thresholds[rid] = thr
+            short = lambda S: ["cfg stack %d" % S] + cmds[:5]
+            if bad:
+                viol("vmiter", "%s: stack size %d: rc=%s %s -- neither the verdict of the default stack size (%s) nor ERROR_EXEC_STACK_OVERFLOW"
+                     % (cid, bad[0][0], bad[0][1], bad[0][2], {k: v[0] for k, v in ref["rules"].items()}), cid, short(bad[0][0]), lines[:3], rule=src)
+            elif nonmono or thr is None:
+                viol("vmiter", "%s: the stack limit is not monotone: size %s succeeds but %s overflow(s); rc by size %s"
+                     % (cid, thr, nonmono[:5], list(zip(sizes, rcs))[:60]), cid, short(nonmono[0] if nonmono else sizes[-1]), lines[:3], rule=src)
+            else:
+                stats["agree"] += 1
+        asan_run.add(cid, cmds, post)
+    truns.append(asan_run)
+
     threads = [threading.Thread(target=r.run) for r in truns]
     par = 4
     t0 = time.time()
@@ -814,6 +926,19 @@ def _run(chk, K, h, model, quick):
     seq = [loop_rc.get(S) for S in range(1, 13)]
     if any(seq[i] == 0 and seq[i + 1] not in (0, None) for i in range(len(seq) - 1)) or seq[-1] != 0:
         chk.violation("corr:vmloop", "loops under stack sizes 1..12 give rc %s: not monotone" % seq, {"rc_by_stack_size": seq}, found_input=True)
+    # thresholds: N enclosing operands cost the same number of slots whatever the construct below them is
+    deltas = {}
+    for rid, thr in vm_thresholds.items():
+        m_ = re.match(r"(.*)_n(\d+)$", rid)
+        base = vm_thresholds.get(m_.group(1) + "_n0") if m_ else None
+        if m_ and thr is not None and base is not None and int(m_.group(2)) > 0:
+            deltas.setdefault(int(m_.group(2)), {})[m_.group(1)] = thr - base
+    for N_, d_ in deltas.items():
+        if len(set(d_.values())) > 1:
+            chk.violation("vmiter:threshold", "the smallest sufficient stack size under %d enclosing operands grows by different amounts for different constructs: %s" % (N_, d_),
+                          {"thresholds": vm_thresholds}, found_input=False)
+    chk.note(vm_stack_thresholds=vm_thresholds, vm_stack_threshold_growth_per_enclosing_operands={str(k): sorted(set(v.values())) for k, v in deltas.items()},
+             vm_iter_variant="asan" if hasan else "plain")
     chk.note(evaluations=stats["cases"], distinct_nontrivial=len(nontriv), traces_validated_against_impl=stats["agree"], case_kinds=stats["kinds"],
              timeout_delays=delays, model_constants=ans[kq], max_nested_counted_repeats_compiled=maxdepth["ok"],
              slow_warning_only_for_string_index_0={"a_at_index_1_warned": obs.get("ba"), "a_at_index_0_warned": obs.get("ab"),
